@@ -82,6 +82,9 @@ class RuleChecker:
                 path_str, rel_path, fp_config["directories"]
             )
             violations.extend(dir_violations)
+            if self._is_covered_by_directory_rule(path_str, fp_config["directories"]):
+                # Directory-specific rules take precedence over global rules
+                return violations
 
         with suppress(KeyError):
             deny_violations = self._check_global_deny(path_str, rel_path, fp_config["global_deny"])
@@ -94,6 +97,11 @@ class RuleChecker:
             violations.extend(global_violations)
 
         return violations
+
+    def _is_covered_by_directory_rule(self, path_str: str, directories: dict[str, Any]) -> bool:
+        """Check whether some directory rule contains the file."""
+        dir_rule, matched_path = self.directory_matcher.find_matching_rule(path_str, directories)
+        return bool(matched_path) and dir_rule is not None
 
     def _check_directory_deny_rules(self, ctx: RuleCheckContext) -> Violation | None:
         """Check directory deny rules.
